@@ -138,6 +138,28 @@ func c13Threshold(c *eng.Ctx, r *eng.Report) {
 			r.Check(fn == newGen || fn == newGenL, rule, "threshold-writer:"+eng.FuncName(fn), c.Pos(st.Pos()), "only the constructor sets the threshold", eng.FuncName(fn)+" rewrites GroupSignGenerator.threshold after construction")
 		}
 	}
+	// (d) when more than k shares are held, k *distinct* ones are selected: indices come from a permutation
+	pick := c.Func("consensus/groupsig", "getRandomKSignInfo")
+	if r.Anchor(pick != nil, rule, "groupsig.getRandomKSignInfo") {
+		okPerm := false
+		for _, call := range callsNamed(pick, ".RandomPerm") {
+			a := call.Call.Args
+			if len(a) >= 3 && strings.HasPrefix(eng.Desc(a[1]), "builtin:len(") && isParamNamed(a[2], "k") {
+				okPerm = true
+			}
+		}
+		r.Check(okPerm, rule, "getRandomKSignInfo:distinct", c.Pos(pick.Pos()), "the k indices are RandomPerm(len(shares), k): distinct by construction", "getRandomKSignInfo no longer takes its k indices from RandomPerm(len(shares), k): independently drawn indices can repeat, fewer than k distinct shares reach the interpolation and the recovered signature is wrong for some draws")
+		// and recovery uses the selected subset only when more than k shares are present
+		okUse := false
+		for _, s := range c.Callers(pick) {
+			for _, cd := range eng.CondsAt(s.Instr) {
+				if m, isM := cd.Cmp(); isM && strings.Contains(eng.Desc(m.X)+eng.Desc(m.Y), "thresholdValue") && strings.Contains(eng.Desc(m.X)+eng.Desc(m.Y), "builtin:len(") {
+					okUse = true
+				}
+			}
+		}
+		r.Check(okUse, rule, "RecoverGroupSignature:subset-only-when-more", c.Pos(pick.Pos()), "a random k-subset is drawn only when more than k shares are held", "RecoverGroupSignature draws a subset without comparing the number of shares with k")
+	}
 	gen := c.Func("consensus/model", "(*GroupSignGenerator).genGroupSign")
 	genL := c.Func("consensus/logical", "(*groupSignGenerator).genGroupSign")
 	if r.Anchor(gen != nil && genL != nil, rule, "genGroupSign (model and logical)") {
@@ -340,6 +362,12 @@ func c13Points(c *eng.Ctx, r *eng.Report) {
 			}
 		}
 		ok := keyIdx != nil && keyIdx == valIdx && keyNext == valNext
+		if !ok && keyIdx != nil && valIdx != nil && keyNext == valNext {
+			// append style: both go into one-element varargs arrays (index 0) in the same iteration
+			k1, isK1 := eng.ConstInt(keyIdx)
+			k2, isK2 := eng.ConstInt(valIdx)
+			ok = isK1 && isK2 && k1 == 0 && k2 == 0
+		}
 		r.Check(ok, rule, "RecoverGroupSignature:pairing", c.Pos(recG.Pos()), "ids[n] is parsed (SetHexString) from the key of the very map entry whose signature is stored at sigs[n]", "RecoverGroupSignature no longer stores the id parsed from a map key and that entry's signature at the same index: shares are combined with other members' coefficients")
 		// and what it passes on is (sigs, ids) in that order, both sized k
 		ok2 := false
